@@ -76,7 +76,7 @@ NatShr(a, k) ==
         rem  == k % 8
         hi   == IF Len(a) <= full THEN <<>> ELSE SubSeq(a, full + 1, Len(a))
     IN  IF rem = 0 THEN hi ELSE Trim(NatHalve(hi, rem))
-NatShl(a, k) == NatMul(a, NatPow2(k))
+NatShl(a, k) == IF a = <<>> THEN a ELSE ShiftLimbs(NatMulSmall(a, 2 ^ (k % 8)), k \div 8)     \* linear, not a general product
 
 NatBit(a, k) == (Limb(a, (k \div 8) + 1) \div (2 ^ (k % 8))) % 2
 NatBitLen(a) == IF a = <<>> THEN 0
